@@ -34,10 +34,11 @@ def pred(fn):
     return fn
 
 
-def rec(args, ret):
-    """Recursive specification function (single return expression).  Heap reads become parameters."""
+def rec(args, ret, opaque=False):
+    """Recursive specification function (single return expression).  Heap reads become parameters.
+    opaque: its definition is only unfolded inside the contracts / lemmas that list it under `reveals`."""
     def deco(fn):
-        REGISTRY["recs"][fn.__name__] = (_fn_node(fn), args, ret)
+        REGISTRY["recs"][fn.__name__] = (_fn_node(fn), args, ret, opaque)
         return fn
     return deco
 
